@@ -506,6 +506,7 @@ func c08SemanticBatches(era drive.Era) []c08Batch {
 	add("conv-unheld-asset", "unheld", kit.Conversion(A, "pXBT", 5e8, "pUSD"))
 	add("burn-address-transfer", "burn-address", kit.Tx{From: A, Asset: "pUSD", Amount: 2e8, To: []kit.Out{{Addr: GlobalBurn(), Amount: 2e8}}})
 	add("burn-between-outputs", "burn-address", kit.Tx{From: A, Asset: "pUSD", Amount: 7e8, To: []kit.Out{{Addr: B, Amount: 1e8}, {Addr: GlobalBurn(), Amount: 1e8}, {Addr: AddrC, Amount: 2e8}, {Addr: OldBurn(), Amount: 1e8}, {Addr: B, Amount: 2e8}}})
+	add("zero-amount-outputs-around-funded-ones", "zero-amount", kit.Tx{From: A, Asset: "pUSD", Amount: 5e8, To: []kit.Out{{Addr: B, Amount: 0}, {Addr: AddrC, Amount: 3e8}, {Addr: A, Amount: 0}, {Addr: B, Amount: 2e8}, {Addr: AddrC, Amount: 0}}})
 	add("many-outputs", "many-outputs", kit.Tx{From: A, Asset: "pUSD", Amount: 4, To: []kit.Out{{B, 1}, {B, 1}, {A, 1}, {AddrC, 1}}})
 	var many []kit.Tx
 	for i := 0; i < 40; i++ {
